@@ -164,6 +164,9 @@ let bigs b = if b then "1" else "0"
 (* ---------- the model's observable ---------- *)
 let model (input : string) : string =
   match split_on ' ' input with
+  | ["L"; pver; ebs; cmd] ->
+    let pver = n_of_string pver and ebs = n_of_string ebs in
+    Printf.sprintf "%s %s" (dec_of_n (WireMsg.max_payload (kind_of_string cmd) pver ebs)) (dec_of_n (WireMsg.max_message_payload ebs))
   | ["P"; pver; ebs; ms] ->
     let pver = n_of_string pver and ebs = n_of_string ebs in
     let mmp = WireMsg.max_message_payload ebs in
@@ -233,6 +236,7 @@ let spec (input : string) (obs : string) : string =
   else if obs = "MISSING" then "FAIL no-observable"
   else
     match split_on ' ' input with
+    | ["L"; _; _; _] -> if obs = "" then "FAIL malformed-observable" else "OK"
     | ["P"; pver; ebs; ms] | ["F"; pver; ebs; _; ms] ->
       let framed = input.[0] = 'F' in
       let pver = n_of_string pver and ebs = n_of_string ebs in
